@@ -39,4 +39,15 @@ SliceListsFull(shape, F(_)) == SeqProd([i \in 1..Len(shape) |-> F(shape[i])])
 SliceListsPrefix(shape, F(_)) ==
     UNION {SeqProd([i \in 1..n |-> F(shape[i])]) : n \in 1..Len(shape)}
 
+(* one axis ranges over G (the full space), the others over F (a palette); every axis takes G in turn *)
+SliceListsOneFull(shape, F(_), G(_)) ==
+    UNION {SeqProd([i \in 1..n |-> IF i = j THEN G(shape[i]) ELSE F(shape[i])]) : <<n, j>> \in
+              {<<n, j>> \in (1..Len(shape)) \X (1..Len(shape)) : j <= n}}
+
+(* all factorisations of n into exactly r factors >= 1 *)
+RECURSIVE Factorisations(_, _)
+Factorisations(n, r) ==
+    IF r = 0 THEN (IF n = 1 THEN {<<>>} ELSE {})
+    ELSE UNION {{<<d>> \o f : f \in Factorisations(n \div d, r - 1)} : d \in {d \in 1..n : n % d = 0}}
+
 =============================================================================
